@@ -31,6 +31,11 @@ ASSUMPTIONS = ['cost model: slice copies dominate; C-level work inside '
                'struct / bytes.decode is linear',
                'budgets carry >=4x head-room over the measured worst cases']
 TIMEOUT = {'quick': 900, 'thorough': 10800}
+# CPU seconds ONE journaled case may burn before the kernel ends the worker
+# (measured worst case on the pinned tree: 3 s quick, 25 s thorough, both
+# under tracemalloc).  A decode that spends minutes of CPU inside one C call
+# (catastrophic regex backtracking) is attributed to its input this way.
+CASE_CPU_LIMIT = {'quick': 90, 'thorough': 900}
 
 
 def shards(tier, seed):
